@@ -8,9 +8,9 @@ request   c02 outcomes <backend> <world> <program>
   world     which metrics are registered when the program starts: letters `c` (unlabelled counter = value object 0) and/or
             `p` (labelled counter = parent 0, label values 0/1, child for label value k = value object 10+k); `-` for none
   program   threads separated by `|`, calls by `,`:
-              inc:o:a   get:o   lab:k   linc:k:a   rem:k   clr   reg:c   unreg:c   col   rcol:c
+              inc:o:a   get:o   lab:k   linc:k:a   rem:k   clr   reg:c   unreg:c   col   rcol:c   rrcol:c
             (rcol:c = registry.collect() with a collector that registers c, unregisters c and does a restricted lookup from
-             inside its collect())
+             inside its collect(); rrcol:c = registry.restricted_registry([its name]).collect() over the same collector)
 reply     ok <explored states> <outcome>;<outcome>…        | err <why>
   outcome   DEADLOCK | ITERERR | <thread 0 observations>/<thread 1 …>/…/F:<final>
             observations, comma separated:  G<o>=<n>  L<k>=<child id>  R=<c.c…>  C=<n>  P<k>=<n|->   (`.` if none)
@@ -92,6 +92,15 @@ def rcolCall (c : Nat) : Call Upd :=
     lobj := lobjOf 0, vobj := vobjOf 0,
     lab := fun xk => if xk.2 = 1 then regLab c xk.1 else if xk.2 = 2 then unregLab c xk.1 else .keep }
 
+def rrcolCall (c : Nat) : Call Upd :=
+  { rcolCall c with
+    code0 := compile (canon 0)
+      (fun callee => match callee with
+        | .collect => canonCodeK 1 CollectorRegistry_register ++ canonCodeK 2 CollectorRegistry_unregister ++
+                      canonCodeK 3 RestrictedRegistry_collect ++ canonCodeK 4 CollectorRegistry_get_target_info
+        | _ => [])
+      RestrictedRegistry_collect }
+
 def collectPrims (cfg : Cfg) : List Prim :=
   [.colReg (mk CollectorRegistry_collect 0 (fun _ => .keep))] ++
   (if cfg.hasC then [getPrim cfg 0 "C"] else []) ++
@@ -130,6 +139,9 @@ def parseOp (cfg : Cfg) (tid idx : Nat) (f : String) : Option (List Prim) :=
   | ["rcol", c] => do
     let c ← c.toNat?
     pure [.colReg (rcolCall c)]
+  | ["rrcol", c] => do
+    let c ← c.toNat?
+    pure [.silent (rrcolCall c)]
   | _ => none
 
 def parseThread (cfg : Cfg) (tid : Nat) (f : String) : Option (List Prim) :=
